@@ -2,6 +2,12 @@
 """Writes MANIFEST.json. The list DONE names the properties whose checks exist."""
 import json, subprocess
 DONE = {
+ "C10": ("exploration", "differential monitor: next_value vs next_datum item sequences + lock-step Ref-accessor walk against Value accessors",
+         "On generated, malformed and layout-rich inputs with option sets drawn from all 1536 and three sources, the item sequences of the two APIs are compared item by item (value, first error incl. message and location, end of input); every sub-datum reachable through list_iter/vector_iter/as_pair is walked with the Ref accessors in lock-step with the Value accessors (peek, is_empty, the None/tail/None protocol, pointer identity of exposed values).",
+         "trusted: the lock-step walker", "4/C10"),
+ "C11": ("exploration", "span-geometry monitor with slice re-parse oracle and cross-source span equality",
+         "For every top-level datum and every reachable sub-datum: the span maps into the input through the harness's own line/byte-column map, is non-empty, inside the parent's span, after its preceding sibling, and the covered text re-parsed alone with the same options equals the sub-datum (quote-shorthand heads cover the sigil); the span trees from &str, &[u8] and a stream are compared. Layouts contain CR/LF/TAB/FF/comments and non-ASCII text before datums.",
+         "trusted: the offset map (LF-separated lines, byte columns)", "4/C11"),
  "C12": ("exploration", "sequence differential over four iteration styles + metamorphic trivia insertion + call-history termination monitor (item bound, fuel, span progress)",
          "Value sequences are printed, joined with random trivia over {space, tab, CR, LF, FF, comments} and re-read through four iteration styles and three sources, which must agree with each other and with the original sequence; the same token sequence under two independent trivia draws must read identically; over arbitrary input every iteration style and random call histories on one parser (continuing after errors) are bounded by len+2 items, by the hook step counter and by monotone non-empty datum spans. Both feature builds.",
          "trusted: the harness's rule for where a separator is required; item bound len+2 as the definition of non-termination", "4/C12"),
